@@ -5,6 +5,8 @@ use serde_json::Value;
 pub struct Rendered {
     pub source: String,
     pub line: usize,
+    /// line of the illegal neighbour (cell field `pre`), 0 if there is none
+    pub pre_line: usize,
 }
 
 pub const PRELUDE8: &str = "struct S { m: i32, a: [2]i32 }\nstruct SP { p: &i32, m: i32 }\nword64 W { m: i32, n: i32 }\nstruct SS { s: S, q: &S }\n";
@@ -21,6 +23,10 @@ pub struct Cell {
     /// expression context of an address-of argument and statement context of the statement
     pub x: String,
     pub y: String,
+    /// the second unit next to the construct ("none", "s_call", "s_bad", "s_bad_after", "f_bad", "f_bad_after", "f_samename")
+    pub pre: String,
+    /// flags of the enclosing function ("", "pub", "extern")
+    pub v: String,
 }
 
 impl Cell {
@@ -37,11 +43,20 @@ impl Cell {
             tt: ty::ty_from_json(&v["tt"]),
             x: c["x"].as_str().unwrap_or("direct").to_string(),
             y: c["y"].as_str().unwrap_or("top").to_string(),
+            pre: c["pre"].as_str().unwrap_or("none").to_string(),
+            v: c["v"].as_str().unwrap_or("").to_string(),
         }
     }
     pub fn key(&self) -> String {
         let base = format!("{} {} {} {} /{}", self.ctx, self.kind, ty::key(&self.d), if self.path.is_empty() { "-".to_string() } else { self.path.join(".") }, self.k);
-        if self.x == "direct" && self.y == "top" { base } else { format!("{} @{}/{}", base, self.x, self.y) }
+        let mut key = if self.x == "direct" && self.y == "top" { base } else { format!("{} @{}/{}", base, self.x, self.y) };
+        if self.pre != "none" {
+            key.push_str(&format!(" ^{}", self.pre));
+        }
+        if !self.v.is_empty() {
+            key.push_str(&format!(" #{}", self.v));
+        }
+        key
     }
 }
 
@@ -147,13 +162,43 @@ pub fn render(c: &Cell) -> Rendered {
             "ret" => ret = Some(syntax(&c.tt)),
             "cond" => {}
             "index" | "index_set" => lines.push(format!("fn callee(q: {}) -> usize;", syntax(&c.tt))),
-            "binop" | "castop" | "condcall" | "builtin" => lines.push(format!("fn callee(q: {}) -> i32;", syntax(&c.tt))),
+            "binop" | "castop" | "condcall" | "builtin" | "unop" | "assigncall" | "twice_r" | "twice_l" => {
+                lines.push(format!("fn callee(q: {}) -> i32;", syntax(&c.tt)))
+            }
+            "arg2" => lines.push(format!("fn callee(p0: i32, q: {});", syntax(&c.tt))),
+            "argmid" => lines.push(format!("fn callee(p0: i32, q: {}, p2: i32);", syntax(&c.tt))),
+            "initmember" => lines.push(format!("struct MX {{ m: {} }}", syntax(&c.tt))),
+            "initelem" | "reseat" | "bitcast" => {}
             _ => lines.push(format!("fn callee(q: {});", syntax(&c.tt))),
         }
     }
+    // the second unit: an illegal statement next to the construct, a function before / after `t`
+    let mut pre_line = 0;
+    if c.pre == "s_bad" || c.pre == "s_bad_after" {
+        lines.push("const KC: i32 = 1i32;".to_string());
+    }
+    if c.pre == "s_call" {
+        lines.push("fn pre_sink(v: i32);".to_string());
+    }
+    let pre_fn: Vec<&str> = match c.pre.as_str() {
+        "f_bad" | "f_bad_after" => vec!["fn t0(h: i32)", "{", "\th = 2i32;", "}"],
+        "f_samename" => vec!["fn t0()", "{", "\tvar b: i32 = 1i32;", "\tb = 2i32;", "}"],
+        _ => Vec::new(),
+    };
+    if c.pre == "f_bad" {
+        pre_line = lines.len() + 3;
+    }
+    if c.pre != "f_bad_after" {
+        lines.extend(pre_fn.iter().map(|s| s.to_string()));
+    }
+    let flags = match c.v.as_str() {
+        "pub" => "pub ",
+        "extern" => "extern ",
+        _ => "",
+    };
     match &ret {
-        Some(r) => lines.push(format!("fn t({}) -> {}", params.join(", "), r)),
-        None => lines.push(format!("fn t({})", params.join(", "))),
+        Some(r) => lines.push(format!("{}fn t({}) -> {}", flags, params.join(", "), r)),
+        None => lines.push(format!("{}fn t({})", flags, params.join(", "))),
     }
     lines.push("{".to_string());
     lines.extend(ty::CTX_LOCALS.iter().map(|s| s.to_string()));
@@ -217,12 +262,47 @@ pub fn render(c: &Cell) -> Rendered {
             "castop" => format!("\tvar rr: i64 = callee({}) as i64;", r),
             "condcall" => format!("\tif callee({}) == 1i32 {{ fill = 1i32; }}", r),
             "builtin" => format!("\tprint!(callee({}));", r),
+            "initelem" => format!("\tvar rr: [1]{} = [{}];", syntax(&c.tt), r),
+            "initmember" => format!("\tvar rr: MX = MX {{ m: {} }};", r),
+            "reseat" => {
+                lines.push(format!("\tvar tq: {} = {};", syntax(&c.tt), value(&c.tt, 50)));
+                format!("\t{}tq = {};", "&".repeat(ty::ptr_depth(&c.tt)), r)
+            }
+            "bitcast" => format!("\tvar rr: &u8 = cast {} as &u8;", r),
+            "unop" => format!("\tvar rr: i32 = -callee({});", r),
+            "assigncall" => format!("\ttv = callee({});", r),
+            "arg2" => format!("\tcallee(tv, {});", r),
+            "argmid" => format!("\tcallee(tv, {}, tv);", r),
+            "twice_r" => format!("\tvar rr: i32 = callee({}) + callee({});", value(&c.tt, 50), r),
+            "twice_l" => format!("\tvar rr: i32 = callee({}) + callee({});", r, value(&c.tt, 50)),
             _ => format!("\tcallee({});", r),
         },
     };
     let construct = if c.y != "top" && c.x != "ret" { format!("\t{}", ty::in_stmt_ctx(&c.y, &construct, "c")) } else { construct };
+    if c.pre == "s_bad" {
+        lines.push("\tKC = 2i32;".to_string());
+        pre_line = lines.len();
+    }
+    if c.pre == "s_call" {
+        // a legal call statement with an argument right before the construct
+        lines.push("\tpre_sink(tv);".to_string());
+    }
+    let is_return = c.x == "ret";
+    if c.pre == "s_bad_after" && is_return {
+        // nothing can follow the return value: the neighbour stands before it
+        lines.push("\tKC = 2i32;".to_string());
+        pre_line = lines.len();
+    }
     lines.push(construct);
     let line = lines.len();
+    if c.pre == "s_bad_after" && !is_return {
+        lines.push("\tKC = 2i32;".to_string());
+        pre_line = lines.len();
+    }
     lines.push("}".to_string());
-    Rendered { source: lines.join("\n") + "\n", line }
+    if c.pre == "f_bad_after" {
+        pre_line = lines.len() + 3;
+        lines.extend(pre_fn.iter().map(|s| s.to_string()));
+    }
+    Rendered { source: lines.join("\n") + "\n", line, pre_line }
 }
